@@ -346,14 +346,162 @@ func rootIsParam(v ssa.Value) bool {
 	return false
 }
 
-// RequireStore: fnRef contains a store matching one of pats.
+// scopedStore is a store of fn or of one of its single-use helpers, rendered in fn's own terms, with the
+// facts known when it executes (the helper's facts with the arguments substituted, plus the caller's facts
+// at the helper's call site).
+type scopedStore struct {
+	S     string
+	In    ssa.Instruction
+	Facts []string
+}
+
+func (r *Run) scopedStores(fn *ssa.Function) []scopedStore {
+	var out []scopedStore
+	ff := r.P.Facts(fn)
+	for _, s := range ff.StoreFacts() {
+		var facts []string
+		for _, a := range ff.MustAt(s.In) {
+			facts = append(facts, a.S)
+		}
+		out = append(out, scopedStore{s.S, s.In, facts})
+	}
+	for _, h := range r.P.singleUseCallees(fn, 2) {
+		hf := r.P.Facts(h)
+		for _, s := range hf.StoreFacts() {
+			// express the store and its facts in the terms of the outermost caller
+			txt := s.S
+			var facts []string
+			for _, a := range hf.MustAt(s.In) {
+				facts = append(facts, a.S)
+			}
+			cur := h
+			okChain := false
+			for d := 0; d < 3; d++ {
+				site, caller := r.P.onlyCallSite(cur)
+				if site == nil {
+					break
+				}
+				cf := r.P.Facts(caller)
+				var args []string
+				for _, a := range site.Common().Args {
+					args = append(args, cf.Term(a))
+				}
+				txt = substParams(txt, args)
+				for i := range facts {
+					facts[i] = substParams(facts[i], args)
+				}
+				for _, a := range cf.Must(site.Block()) {
+					facts = append(facts, a.S)
+				}
+				cur = caller
+				if cur == fn {
+					okChain = true
+					break
+				}
+			}
+			if okChain {
+				out = append(out, scopedStore{txt, s.In, facts})
+			}
+		}
+	}
+	return out
+}
+
+// helperChain: for a single-use helper h reachable from fn, the function that rewrites h's terms into
+// fn's terms (arguments substituted along the chain of call sites) and the facts known in fn's terms at
+// h's call site.  ok=false when h is not (transitively) a single-use helper of fn.
+func (r *Run) helperChain(fn, h *ssa.Function) (subst func(string) string, outer []string, ok bool) {
+	var chain [][]string
+	cur := h
+	for d := 0; d < 3 && cur != fn; d++ {
+		site, caller := r.P.onlyCallSite(cur)
+		if site == nil {
+			return nil, nil, false
+		}
+		cf := r.P.Facts(caller)
+		var args []string
+		for _, a := range site.Common().Args {
+			args = append(args, cf.Term(a))
+		}
+		chain = append(chain, args)
+		for i := range outer {
+			outer[i] = substParams(outer[i], args)
+		}
+		for _, a := range cf.Must(site.Block()) {
+			outer = append(outer, a.S)
+		}
+		cur = caller
+	}
+	if cur != fn {
+		return nil, nil, false
+	}
+	// outer facts collected at inner levels were already rewritten level by level above
+	return func(t string) string {
+		for _, args := range chain {
+			t = substParams(t, args)
+		}
+		return t
+	}, outer, true
+}
+
+// scopedLatch is a loop latch of fn or of one of its single-use helpers with facts in fn's terms.
+type scopedLatch struct {
+	FF    *FuncFacts
+	Loop  *Loop
+	Latch *ssa.BasicBlock
+	Facts []string
+	Space string
+}
+
+func (r *Run) scopedLatches(fn *ssa.Function) []scopedLatch {
+	var out []scopedLatch
+	for _, f := range append([]*ssa.Function{fn}, r.P.singleUseCallees(fn, 2)...) {
+		subst, outer := func(t string) string { return t }, []string(nil)
+		if f != fn {
+			var ok bool
+			if subst, outer, ok = r.helperChain(fn, f); !ok {
+				continue
+			}
+		}
+		ff := r.P.Facts(f)
+		for _, lp := range ff.loops {
+			for _, lt := range lp.Latches {
+				var fs []string
+				for _, a := range ff.Must(lt) {
+					fs = append(fs, subst(a.S))
+				}
+				fs = append(fs, outer...)
+				out = append(out, scopedLatch{ff, lp, lt, fs, subst(ff.loopSpace(lp))})
+			}
+		}
+	}
+	return out
+}
+
+// onlyCallSite: the single static call site of a single-use helper.
+func (p *Program) onlyCallSite(h *ssa.Function) (ssa.CallInstruction, *ssa.Function) {
+	if !p.singleUse(h) {
+		return nil, nil
+	}
+	for _, g := range p.ModFns {
+		for _, gb := range g.Blocks {
+			for _, in := range gb.Instrs {
+				if ci, ok := in.(ssa.CallInstruction); ok && ci.Common().StaticCallee() == h {
+					return ci, g
+				}
+			}
+		}
+	}
+	return nil, nil
+}
+
+// RequireStore: fnRef (or one of its single-use helpers) contains a store matching one of pats.
 func (r *Run) RequireStore(rule, fnRef, name string, pats ...string) {
 	fn := r.fn(rule, fnRef)
 	if fn == nil {
 		return
 	}
-	ff := r.P.Facts(fn)
-	for _, s := range ff.StoreFacts() {
+	for _, s := range r.scopedStores(fn) {
 		for _, p := range pats {
 			if glob(p, s.S) {
 				r.Check(rule, fnRef+": "+name, r.P.Pos(s.In.Pos()), true, "store: "+trunc(s.S, 200))
@@ -364,24 +512,20 @@ func (r *Run) RequireStore(rule, fnRef, name string, pats ...string) {
 	r.Check(rule, fnRef+": "+name, r.P.Pos(fn.Pos()), false, fmt.Sprintf("no store matching %v", pats))
 }
 
-// RequireAtStore: every store whose "ADDR := VAL" text matches storePat is dominated
-// by the Reqs.  min = minimum number of matching stores.
+// RequireAtStore: every store (of fnRef or its single-use helpers) whose "ADDR := VAL" text matches
+// storePat is dominated by the Reqs.  min = minimum number of matching stores.
 func (r *Run) RequireAtStore(rule, fnRef, storePat string, min int, reqs ...Req) {
 	fn := r.fn(rule, fnRef)
 	if fn == nil {
 		return
 	}
-	ff := r.P.Facts(fn)
 	n := 0
-	for _, s := range ff.StoreFacts() {
+	for _, s := range r.scopedStores(fn) {
 		if !glob(storePat, s.S) {
 			continue
 		}
 		n++
-		var facts []string
-		for _, a := range ff.MustAt(s.In) {
-			facts = append(facts, a.S)
-		}
+		facts := s.Facts
 		for _, q := range reqs {
 			a, m := matchAny(q.Pats, facts)
 			d := "established by: " + trunc(a, 200)
